@@ -3,7 +3,7 @@
 # stage 1 per change: demo on the clean tree / with its own patch.  stage 2 per group: all patches of the group applied
 # together (they must not overlap), full test suite once, comparison with the baseline, quiet re-run of failures.
 mkdir -p /tmp/sw
-G=0
+G=${G0:-0}
 for group in "$@"; do
   G=$((G+1)); WT=/tmp/sw/group$G
   rm -rf $WT; git -C /repo worktree prune; git -C /repo worktree add --detach $WT HEAD -q || continue
